@@ -43,8 +43,8 @@ def calibrate(bindir):
     return UNREACHED["reached"]
 
 
-def build_text(parts):
-    """parts: list of tuples; returns the text.  Registers the `reached` flags of its includes."""
+def build_text(parts, eol="\n"):
+    """parts: list of tuples; returns the text (lines ended by `eol`).  Registers the `reached` flags of its includes."""
     out, flags = [], []
     for p in parts:
         k = p[0]
@@ -76,7 +76,7 @@ def build_text(parts):
             out.append(p[1])
         else:
             raise ValueError(k)
-    text = "\n".join(out) + ("\n" if out else "")
+    text = eol.join(out) + (eol if out else "")
     if REACHED.setdefault(text, flags) != flags:
         raise ValueError("same text with different flags")
     return text
